@@ -274,7 +274,8 @@ class SchemaGen:
     def bad_leaf(self):
         r = self.r
         return r.choice([float("nan"), float("inf"), 2**31, -2**31 - 1, 1.5, "abc", "12", "", True, [], [1], {}, {"a": 1}, (1, 2), 10**400,
-                         "BAD", "A", "Z", 0, -0.0, 2.0, "1e400", {"x": False, "m": "as value", "e": []}, {"o": "Weird", "a": []}, None])
+                         "BAD", "A", "Z", 0, -0.0, 2.0, "1e400", {"x": False, "m": "as value", "e": []}, {"o": "Weird", "a": []}, None,
+                         {"x": False, "m": "", "e": [], "multi": 1}])
 
     def targeted_bad(self, ty):
         """values aimed at the declared type of the position (boundary / look-alike garbage)"""
@@ -326,6 +327,7 @@ class SchemaGen:
             if items and r.random() < self.exc_items:
                 tart = r.random() < 0.5
                 items[r.randrange(len(items))] = {"x": tart, "m": "item failure", "e": [["code", {"i": "9"}]] if tart and r.random() < 0.5 else []}
+                if r.random() < 0.15: items[r.randrange(len(items))] = {"x": False, "m": "", "e": [], "multi": 1}
             return items
         b = ty["n"]
         if b in self.leaf_names: return enc(self.good_leaf(b))
